@@ -7,7 +7,10 @@ from .. import tlc, tracecheck
 
 def constants_for(impl, cfg, deviations=()):
     return {'RT': cfg.get('request_timeout', 80), 'Grace': 80,
-            'ImplWsProbeTimeout': 'TRUE' if impl == 'sync' else 'FALSE',
+            'ImplWsProbeTimeout': 'TRUE',   # both clients bound the probe / OPEN read by request_timeout
+            'ImplWsSetTimeout': 'TRUE' if impl == 'sync' else 'FALSE',
+            'ConnectDisconnects': 'TRUE' if cfg.get('connect_disconnects') else 'FALSE',
+            'MsgDisconnects': 'TRUE' if cfg.get('message_disconnects') else 'FALSE',
             'Deviations': '{' + ', '.join('"%s"' % d for d in sorted(deviations)) + '}',
             'Horizon': 100000000}
 
